@@ -8,24 +8,25 @@
    time-sorted (due time - start, bundle) sequence, resumption times - start, logged values, endings).
    gen : seed -> requests served before -> request -> value  is ANY function (random.Random is one).
 
-   STATUS.  rt_nrt_agree is proved for programs whose routines all run on SystemClock (sys_only), with
-   the whole language otherwise (conditions, flow variables, own and inherited generators, pause/resume,
-   nested bundles), for EVERY oracle; it is FALSE for routines that communicate across clocks
-   (rt_nrt_cross_clock_refuted: witness reproduced on the real library by making one clock thread late).
-   FULL STATEMENT (not proved; kept here as the target):
-     forall gen off p t0 sched, nonneg_yields p -> xs_bad (xrt_run gen off p t0 sched) = false ->
-       n_q (final) = [] -> logical_order sched ->      (wake-ups of routines that share a generator,
-                                                         a condition, a flow variable, a pause/resume target
-                                                         or a tempo map, at different logical times, are
-                                                         performed in logical order)
-       forall rid, obs_rout t0 (xs (xrt_run gen off p t0 sched)) rid ~ obs_rout 0 (xnrt_loop gen dd p fuel (xnrt_init p)) rid'
-       (rid' = the routine with the same creation path) and the bundle multisets are equal.
-   What is missing for it: commutation of wake-ups of non-communicating routines (a diamond lemma on
-   xrt_step) and the tempo-map part of the simulation (keys in beats versus seconds through retime).
-   The correspondence checks it on generated programs with several clocks (harness/props/C10.py). *)
-From Coq Require Import ZArith QArith Qround List Bool.
+   STATUS.
+   (1) rt_nrt_agree_partial: programs whose routines all run on SystemClock (sys_only), the whole language otherwise,
+       EVERY oracle: RT = NRT.
+   (2) rt_is_nrt_in_the_order_performed: EVERY program of the language (several clocks, tempo changes, anything shared across
+       clocks; yields >= 0, no AppClock), EVERY accepted real-time execution = the non-real-time SEMANTICS performed in that
+       order (xnrt_follow).  Corollary rt_nrt_agree_ordered_partial: executions in the scheduler's order agree with the NRT run.
+   (3) rt_nrt_cross_clock_refuted: in another order, routines that share state across clocks can observe other values (witness
+       reproduced on the real library by making one clock thread late; recorded as a known finding).
+   NOT PROVED (the remaining part of the property's statement): for programs whose routines do not communicate across clocks,
+   the executions in ANOTHER order than the scheduler's.  By (2) this is a statement about the non-real-time semantics alone:
+       forall rids accepted, per-routine observations of xnrt_follow gen p rids = those of xnrt_loop (the scheduler's order),
+   i.e. commutation of wake-ups of non-communicating routines.  Routine ids, generator ids and queue counts are allocated in
+   execution order, so the two states are equal only up to a renaming: the diamond lemma needs interleaving-independent ids
+   (creation paths) or an explicit renaming relation through every primitive.  The correspondence checks it on generated
+   programs with several clocks (harness/props/C10.py, profile 'groups'). *)
+From Coq Require Import ZArith QArith Qround List Bool Lqa.
 Require Import SC3.model.KProg SC3.model.KNrt SC3.model.KRt SC3.model.KRand SC3.model.KAgree.
 Require Import SC3.proofs.C10_frame SC3.proofs.C10_gens SC3.proofs.C10_sim SC3.proofs.C10_witness.
+Require Import SC3.proofs.C10_sim2 SC3.proofs.C10_own.
 Import ListNotations.
 Open Scope Q_scope.
 
@@ -135,6 +136,59 @@ Theorem rt_nrt_cross_clock_refuted :
   obs_of 0 (xs (xrt_ordered kgen 0 cross_prog 10 (xrt_init cross_prog 0))) = obs_nrt kgen cross_prog 10.
 Proof. exact cross_clock_refuted. Qed.
 
+(* ---- several clocks, tempo maps: the ORDER of the wake-ups is the only thing the modes can differ by ------------ *)
+(* prog_ok2 p: yields >= 0, no AppClock, initial tempi >= 0 -- the WHOLE language otherwise: several clocks,
+   tempo changes (also from another clock's routine), conditions / flow variables / generators / pause-resume
+   shared across clocks.
+   xnrt_follow gen p rids = the non-real-time SEMANTICS (ClockTask wake-ups, re-timing on tempo changes, the
+   score) performed in the order rids, each task being the first of its clock's entries; its flag is true when
+   every step was accepted and no task ran at a negative logical time (NrtMain cannot pack a negative timetag).
+   EVERY real-time execution -- any start instant t0, any timetag offset, any physical clock readings, any
+   order of wake-ups the clocks accept -- yields exactly the observation of the non-real-time semantics
+   performed in that order: the same time-sorted (time - start, bundle) sequence, resumption times, drawn and
+   read values, endings.  Jitter, the start instant and the tempo-map representation (beats in the real-time
+   queues, seconds re-timed in the non-real-time one) have no influence. *)
+Theorem rt_is_nrt_in_the_order_performed : forall gen off p t0 sched,
+  prog_ok2 p -> 0 <= t0 -> (0 <= off)%Z ->
+  xs_bad (xrt_run gen off p t0 sched) = false ->
+  snd (xnrt_follow gen p (map fst sched)) = true ->
+  obs_rt gen off p t0 sched = obs_of 0 (fst (xnrt_follow gen p (map fst sched))).
+Proof. exact rt_is_nrt_in_that_order. Qed.
+
+(* hence: every real-time execution that performs the wake-ups in the order of the non-real-time scheduler
+   (xnrt_order: logical time, then insertion) agrees with the non-real-time run -- for every program of the
+   class, whatever its routines share across clocks.  (_partial: the property also covers the executions in
+   another order for programs whose routines do not communicate across clocks; by the theorem above what
+   remains for them is a statement about the non-real-time semantics alone: performing the wake-ups of
+   non-communicating routines in another order does not change what each of them observes.) *)
+Theorem rt_nrt_agree_ordered_partial : forall gen off p t0 sched,
+  prog_ok2 p -> 0 <= t0 -> (0 <= off)%Z ->
+  xs_bad (xrt_run gen off p t0 sched) = false ->
+  map fst sched = xnrt_order gen p (length sched) (xnrt_init p) ->
+  snd (xnrt_follow gen p (map fst sched)) = true ->
+  obs_rt gen off p t0 sched = obs_nrt gen p (length sched).
+Proof. exact rt_nrt_agree_ordered. Qed.
+
+(* ---- a syntactic sufficient condition for own_seed_stream_independent -------------------------------------- *)
+(* A body that seeds first and afterwards never plays, forks nor re-seeds (leafy: everything else is allowed:
+   yields, sends, draws, conditions, flow variables, pause/resume, tempo changes): EVERY instance of it, in
+   every program, in both modes (as found and repaired), every prefix, every oracle, draws
+   gen s [] r0, gen s [r0] r1, ... over ITS OWN requests r0 r1 ... -- whatever the other routines draw, seed or
+   play, and however the wake-ups are interleaved. *)
+Theorem own_seed_stream_independent_syntactic : forall gen p b s rest0,
+  nth_error (xp_bodies p) b = Some (XSeed s :: rest0) -> leafy rest0 ->
+  (forall dd fuel rid r, let st := xnrt_loop gen dd p fuel (xnrt_init p) in
+     nth_error (x_routs st) rid = Some r -> xr_body r = b ->
+     draws_by rid (x_vals st) = stream gen s (map fst (draws_by rid (x_vals st)))) /\
+  (forall off t0 sched rid r, let st := xs (xrt_run gen off p t0 sched) in
+     nth_error (x_routs st) rid = Some r -> xr_body r = b ->
+     draws_by rid (x_vals st) = stream gen s (map fst (draws_by rid (x_vals st)))).
+Proof.
+  intros gen p b s rest0 Hb Hl. split.
+  - intros dd fuel rid r. apply (own_seed_syntactic_nrt gen p b s rest0); auto.
+  - intros off t0 sched rid r. apply (own_seed_syntactic_rt gen p b s rest0); auto.
+Qed.
+
 (* non-vacuity: a single-clock program with a condition, a flow variable, inherited and own
    generators, pause/resume and nested bundles is in the class; a real-time schedule with start
    instant 3 and timetag offset 7 is accepted by the clock and completes *)
@@ -156,6 +210,33 @@ Proof.
   apply (proj1 (own_seed_stream_independent kgen sys_prog 2 2 9%Z [4; 5]%Z) true 10%nat); [reflexivity|exact sys_keeps].
 Qed.
 
+(* non-vacuity of the multi-clock theorems: the cross-clock witness program is in the class; its out-of-order
+   schedule is accepted and followed by the non-real-time semantics; the ordered one agrees with the run *)
+Example c10_cross_in_class : prog_ok2 cross_prog.
+Proof. split; repeat constructor; simpl; try lra; try discriminate. Qed.
+Example c10_follow_instance :
+  obs_rt kgen 0 cross_prog 0 cross_sched = obs_of 0 (fst (xnrt_follow kgen cross_prog (map fst cross_sched))).
+Proof.
+  apply rt_is_nrt_in_the_order_performed; [exact c10_cross_in_class|discriminate|discriminate| |]; vm_compute; reflexivity.
+Qed.
+Example c10_ordered_instance :
+  let sched := [wk 0 5; wk 1 5; wk 2 5; wk 1 6; wk 2 6; wk 0 7] in
+  obs_rt kgen 3 cross_prog 5 sched = obs_nrt kgen cross_prog 6.
+Proof.
+  apply (rt_nrt_agree_ordered_partial kgen 3 cross_prog 5); [exact c10_cross_in_class|discriminate|discriminate| | |]; vm_compute; reflexivity.
+Qed.
+Example c10_own_syntactic_instance :
+  draws_by 2 (x_vals (xnrt_loop kgen true sys_prog 10 (xnrt_init sys_prog))) = stream kgen 9 [4; 5]%Z.
+Proof.
+  assert (L : leafy [XDraw 4; XYield (1#8); XDraw 5; XSend (Some 0) [EMsg 6]]) by (repeat constructor).
+  rewrite (proj1 (own_seed_stream_independent_syntactic kgen sys_prog 2 9%Z _ eq_refl L) true 10%nat 2%nat
+             (mkXR 2 [] CSystem 2 RDone 2)); [|vm_compute; reflexivity|reflexivity].
+  vm_compute. reflexivity.
+Qed.
+
 Print Assumptions rt_nrt_agree_partial.
+Print Assumptions rt_is_nrt_in_the_order_performed.
+Print Assumptions rt_nrt_agree_ordered_partial.
+Print Assumptions own_seed_stream_independent_syntactic.
 Print Assumptions inherited_generator_interleaves_deterministically.
 Print Assumptions rt_nrt_cross_clock_refuted.
